@@ -192,7 +192,13 @@ class CCodeGenerator:
         cval = self._constant_evaluator.eval_expr(expr)
 
         if isinstance(cval, tuple):
-            assert cval[0] is ir.ptr and len(cval) == 2
+            # An address constant: (ptr, name) or (ptr, name, offset)
+            assert cval[0] is ir.ptr and len(cval) in (2, 3)
+            if self.sizeof(typ) != self.context.arch_info.get_size("ptr"):
+                self.error(
+                    "Initializer element is not computable at load time",
+                    expr.location,
+                )
             mem = (cval,)
         else:
             mem = (self.context.pack(typ, cval),)
@@ -1766,8 +1772,20 @@ class LinkTimeExpressionEvaluator(ConstantExpressionEvaluator):
         self.codegenerator = codegenerator
 
     def eval_global_access(self, declaration):
-        # emit reference to global symbol
-        cval = (ir.ptr, declaration.name)
+        """Emit a reference to a global symbol."""
+        ir_value = self.codegenerator.ir_var_map.get(declaration)
+        if ir_value is None:
+            # Declared here, and defined further on.
+            name = declaration.name
+        elif isinstance(ir_value, ir.GlobalValue):
+            # Note that a static local variable has a name of its own.
+            name = ir_value.name
+        else:
+            self.context.error(
+                f"Address of {declaration.name} is not constant",
+                declaration.location,
+            )
+        cval = (ir.ptr, name)
         return cval
 
     def eval_string_literal(self, expr: expressions.StringLiteral):
@@ -1781,27 +1799,4 @@ class LinkTimeExpressionEvaluator(ConstantExpressionEvaluator):
             expr
         )
         cval = (ir.ptr, compound_literal_var.name)
-        return cval
-
-    def eval_take_address(self, expr):
-        """Evaluate the '&' operator."""
-        if isinstance(expr, expressions.VariableAccess):
-            declaration = expr.variable.declaration
-            if isinstance(
-                declaration,
-                (
-                    declarations.VariableDeclaration,
-                    declarations.ParameterDeclaration,
-                    declarations.ConstantDeclaration,
-                    declarations.FunctionDeclaration,
-                ),
-            ):
-                value = self.codegenerator.ir_var_map[declaration]
-                cval = (ir.ptr, value.name)
-            else:  # pragma: no cover
-                raise NotImplementedError()
-        elif isinstance(expr, expressions.CompoundLiteral):
-            cval = self.eval_compound_literal(expr)
-        else:  # pragma: no cover
-            raise NotImplementedError()
         return cval
